@@ -15,11 +15,35 @@ pub broadcast axiom fn axiom_diff_pathbuf_key_model()
 /// injective (`PathBuf` equality is component-wise: "a//b" == "a/b").
 pub uninterp spec fn path_of(s: Seq<char>) -> std::path::PathBuf;
 
-/// `<&str as Into<PathBuf>>::into` (E13: `Into` is generic over the target type)
-#[verifier::external_body]
-pub fn verif_str_into_pathbuf(s: &str) -> (r: std::path::PathBuf)
-    ensures r == path_of(s@),
-{ s.into() }
+/// `<&str as Into<PathBuf>>::into` / `<String as Into<PathBuf>>::into` (E13: `Into` is generic over
+/// the target type). The path is a function of the text.
+pub trait VerifIntoPath {
+    spec fn ptext(&self) -> Seq<char>;
+    fn into_pb(self) -> (r: std::path::PathBuf)
+        ensures r == path_of(self.ptext());
+}
+
+impl<'a> VerifIntoPath for &'a str {
+    open spec fn ptext(&self) -> Seq<char> { (*self)@ }
+    #[verifier::external_body]
+    fn into_pb(self) -> (r: std::path::PathBuf) { self.into() }
+}
+
+impl<'a> VerifIntoPath for &'a String {
+    open spec fn ptext(&self) -> Seq<char> { (*self)@ }
+    #[verifier::external_body]
+    fn into_pb(self) -> (r: std::path::PathBuf) { self.into() }
+}
+
+impl VerifIntoPath for String {
+    open spec fn ptext(&self) -> Seq<char> { self@ }
+    #[verifier::external_body]
+    fn into_pb(self) -> (r: std::path::PathBuf) { self.into() }
+}
+
+pub fn verif_str_into_pathbuf<T: VerifIntoPath>(s: T) -> (r: std::path::PathBuf)
+    ensures r == path_of(s.ptext()),
+{ s.into_pb() }
 
 /// stand-in for `unidiff::PatchSet` (private field `files: Vec<PatchedFile>`)
 #[verifier::external_body]
